@@ -227,6 +227,11 @@ def run_case(i, rng, rec, tier, state):
         P = P[:40]
         P = P[gen.strict_hull_vertices(P)]
     h = geom.hull_facets(P)
+    if h.min_exterior_angle() < 1e-3:
+        # two distinct facets within 1e-3 rad of coplanar: merge_faces' documented tolerances (atol 1e-8, rtol 1e-5)
+        # may legitimately merge them; margin-separated inputs only
+        rec.note("near-coplanar neighbouring facets (< 1e-3 rad): merge_faces not judged")
+        return
     tris = [list(t) for f in h.facets for t in geom.fan(list(np.roll(f, int(rng.integers(len(f))))))]
     order = rng.permutation(len(tris))
     tris = [tris[t] for t in order]
